@@ -34,6 +34,7 @@ type interpLogger struct {
 	total      int
 	unmodelled int // first executed instruction outside the modelled subset (-1: none)
 	done       bool
+	hashed     [][]byte // what every executed KECCAK256 hashed (the range as it will be after memory expansion: zero-padded)
 }
 
 func (l *interpLogger) CaptureTxStart(uint64) {}
@@ -48,6 +49,12 @@ func (l *interpLogger) CaptureFault(uint64, vm.OpCode, uint64, uint64, *vm.Scope
 }
 func (l *interpLogger) CaptureState(pc uint64, op vm.OpCode, gas, cost uint64, scope *vm.ScopeContext, rData []byte, depth int, err error) {
 	l.total++
+	if byte(op) == 0x20 && err == nil && l.unmodelled < 0 {
+		if d := scope.Stack.Data(); len(d) >= 2 && d[len(d)-1].IsUint64() && d[len(d)-2].IsUint64() && d[len(d)-2].Uint64() <= 1<<16 {
+			off, size := d[len(d)-1].Uint64(), d[len(d)-2].Uint64()
+			l.hashed = append(l.hashed, memSlice(scope.Memory.Data(), off, size))
+		}
+	}
 	if l.unmodelled < 0 && interpUnmodelled[byte(op)] {
 		l.unmodelled = int(op)
 	}
@@ -77,7 +84,7 @@ var interpUndefined = []byte{0x0c, 0x0d, 0x1e, 0x21, 0x2f, 0x49, 0x4f, 0xa5, 0xb
 
 // defined everywhere but outside the modelled subset: the model must stop with `unmodelled` exactly there
 // (only bytes every fork defines: the generator emits no other instruction outside the subset)
-var interpUnmodelled = map[byte]bool{0x20: true, 0x31: true, 0x3b: true, 0x3c: true, 0x40: true, 0x54: true, 0x55: true,
+var interpUnmodelled = map[byte]bool{0x31: true, 0x3b: true, 0x3c: true, 0x40: true, 0x54: true, 0x55: true,
 	0xa0: true, 0xa1: true, 0xa2: true, 0xa3: true, 0xa4: true, 0xf0: true, 0xf1: true, 0xf2: true, 0xff: true}
 
 func interpOperand(r *Rng) *uint256.Int {
@@ -201,6 +208,10 @@ func genInterpCode(a *Asm, r *Rng, n int, cancun bool) {
 				a.Push(memOffset(r)).Op(opMLOAD)
 				h++
 			}
+		case k < 54:
+			// KECCAK256 over a range inside, across the end of, or beyond the current memory
+			a.Push(copyLen(r)).Push(memOffset(r)).Op(0x20)
+			h++
 		case k < 60:
 			op := []byte{opCALLDATACOPY, 0x39, opRETURNDATACOPY, opMCOPY}[r.Intn(4)]
 			if op == opMCOPY && !cancun && r.Chance(80) {
@@ -303,7 +314,7 @@ func genInterpCode(a *Asm, r *Rng, n int, cancun bool) {
 			a.Op(interpUndefined[r.Intn(len(interpUndefined))])
 		case k < 88:
 			// an instruction outside the modelled subset
-			a.PushU(1).PushU(1).Op([]byte{0x20, 0x31, 0x54, 0x40, 0x3b}[r.Intn(5)])
+			a.PushU(1).PushU(1).Op([]byte{0x31, 0x54, 0x40, 0x3b}[r.Intn(4)])
 		case k < 90:
 			a.Push(copyLen(r)).Push(memOffset(r)).Op([]byte{opRETURN, opREVERT}[r.Intn(2)])
 		case k < 91:
@@ -415,6 +426,21 @@ func driveInterp(seed uint64, n int, size int, em *Emitter) {
 				d = []byte{}
 			}
 			em.Op("-", fmt.Sprintf("T call %s %s %s %s %s", hexAddr(root.From), hexAddrP(root.To), hexBytes(d), hexNatU(root.Value), hexNatU(root.Gas)), "ok")
+		}
+		if len(lg.hashed) > 0 {
+			seen := map[string]bool{}
+			parts := []string{}
+			if kline != "." {
+				parts = append(parts, kline)
+			}
+			for _, d := range lg.hashed {
+				k := hexBytes(d)
+				if !seen[k] {
+					seen[k] = true
+					parts = append(parts, k+"="+hexHash(crypto.Keccak256Hash(d)))
+				}
+			}
+			kline = strings.Join(parts, ",")
 		}
 		em.Op("-", fmt.Sprintf("JE %s %s %s %s", hexAddr(contractAddr), "x", storageLine(storage), kline), "ok")
 		difficulty := big.NewInt(1)
